@@ -49,6 +49,13 @@ def main():
             for s in mini["steps"]:
                 print("   step", json.dumps(s))
             print("   ->", mini["violation"]["detail"][:700])
+            dump = os.environ.get("TRIAGE_DUMP")
+            if dump:
+                os.makedirs(dump, exist_ok=True)
+                fn = os.path.join(dump, f"{prop}-{k[0]}-{k[1].replace(':', '_')}.json")
+                with open(fn, "w") as f:
+                    json.dump(mini, f, indent=1, sort_keys=True)
+                print("   dumped", fn)
 
 
 if __name__ == "__main__":
